@@ -4,7 +4,7 @@
 #  1. go build ./...   2. demo test must FAIL with the change   3. existing tests of the touched package pass
 #  (demo excluded)     4. revert the change: demo must PASS.   Writes /verif/seeded/<id>/confirm.log
 id="$1"; pkg="$2"; rx="$3"; shift 3
-wt=/tmp/wt-$id; case "$id" in *-2) wt=/tmp/wt2-${id%-2};; *-3) wt=/tmp/wt3-${id%-3};; esac; out=/verif/seeded/$id/confirm.log
+wt=/tmp/wt-$id; case "$id" in *-2) wt=/tmp/wt2-${id%-2};; *-3) wt=/tmp/wt3-${id%-3};; *-4) wt=/tmp/wt4-${id%-4};; esac; out=/verif/seeded/$id/confirm.log
 export GOFLAGS=-mod=mod GOPROXY=off
 cd "$wt" || exit 2
 {
